@@ -255,7 +255,15 @@ def run(ctx):
                 pass
             elif not ok_target and False:
                 pass
-            if ok_target is None:
+            # EVERY entry of the observation is rescaled: a skip inside the entry loop (`if key in <other observation>: continue`) leaves some
+            # entries on their old scale, and the merge then mixes two scales
+            skips_ = [n_ for n_ in ast.walk(inner) if isinstance(n_, (ast.Continue, ast.Break)) and par.loops_of(n_) and par.loops_of(n_)[0] is inner] if ok_target else []
+            guards_ = [t_ for t_, _ in rules.path_conditions(par, aug, upto=inner)] if ok_target else []
+            if ok_target and (skips_ or guards_):
+                why_ = txt(rules.path_conditions(par, skips_[0], upto=inner)[0][0]) if skips_ and rules.path_conditions(par, skips_[0], upto=inner) else (txt(guards_[0]) if guards_ else "always")
+                o.violated(gf, skips_[0] if skips_ else aug, f"not every entry of the observation is rescaled (`{why_[:70]}` decides): the entries left out keep the old scale, "
+                                                              "so the merged distribution mixes two normalisations", shape_free=True)
+            elif ok_target is None:
                 pass
             elif not ok_target:
                 o.undecided("scaled entries are not `p_obs[topology][key] for key in p_obs[topology]`", gf, aug)
